@@ -837,3 +837,97 @@ def rule_alias_normalised(ctx):
                 where=f"{f.module.relpath}:{first}", operand="absorb"))
     r.floor(n, 1, "functions testing `absorb is None` outside decomp.py")
     return r
+
+
+# ------------------------------------------------------- renorm-power-siblings
+def _root_powers(fnode):
+    """expressions X such that the function computes `... ** (1 / X)`"""
+    out = []
+    for b in ast.walk(fnode):
+        e = None
+        if isinstance(b, ast.BinOp) and isinstance(b.op, ast.Pow):
+            e = b.right
+        elif isinstance(b, ast.AugAssign) and isinstance(b.op, ast.Pow):
+            e = b.value
+        if isinstance(e, ast.BinOp) and isinstance(e.op, ast.Div) and const_value(e.left, None) in (1, 1.0):
+            out.append(e.right)
+    return out
+
+
+def _param_deps(fnode, expr, params):
+    """parameters the value of expr depends on: data dependence through local assignments and control dependence on the
+    tests of the `if` statements those assignments sit under."""
+    parents = {}
+    for p in ast.walk(fnode):
+        for c in ast.iter_child_nodes(p):
+            parents[c] = p
+    deps, seen, todo = set(), set(), [expr]
+    while todo:
+        e = todo.pop()
+        for x in ast.walk(e):
+            if isinstance(x, ast.Name):
+                if x.id in params:
+                    deps.add(x.id)
+                if x.id in seen:
+                    continue
+                seen.add(x.id)
+                for a in ast.walk(fnode):
+                    if isinstance(a, (ast.Assign, ast.AugAssign)):
+                        ts = a.targets if isinstance(a, ast.Assign) else [a.target]
+                        if any(isinstance(t, ast.Name) and t.id == x.id for t0 in ts for t in ast.walk(t0)):
+                            todo.append(a.value)
+                            q = a
+                            while q in parents:
+                                q = parents[q]
+                                if isinstance(q, ast.If):
+                                    # an on/off test (`x > 0`) only says *whether* to do something, not how
+                                    flagless = [t for t in ast.walk(q.test) if isinstance(t, ast.Compare) and not (
+                                        len(t.ops) == 1 and isinstance(t.ops[0], ast.Gt) and const_value(t.comparators[0], None) in (0, 0.0))]
+                                    todo.extend(flagless)
+    return deps
+
+
+def rule_renorm_power_siblings(ctx):
+    r = RuleResult(
+        "renorm-power-siblings",
+        "sibling agreement between the generic and the numba truncation: the exponent p of the renormalisation factor "
+        "(sum of kept s**p rescaled to the sum of all s**p, then the p-th root) must be derived from the same option in both — "
+        "decided by data + control dependence of the root exponent on the parameters `renorm` / `cutoff_mode`",
+    )
+    sources = {}
+    for fname in ("_trim_and_renorm_svd_result", "_trim_and_renorm_svd_result_numba"):
+        f = ctx.prog.func(DECOMP, fname)
+        if f is None:
+            raise AnalysisError(f"{fname} not found")
+        params = set(f.params)
+        deps = set()
+        roots = _root_powers(f.node)
+        for x in roots:
+            deps |= _param_deps(f.node, x, params) & {"renorm", "cutoff_mode"}
+        # follow helper calls that receive renorm / cutoff_mode
+        for c in ast.walk(f.node):
+            if isinstance(c, ast.Call) and isinstance(c.func, ast.Name):
+                g = ctx.prog.module(DECOMP).functions.get(c.func.id)
+                if g is None or g is f or "renorm_factor" not in g.name:
+                    continue
+                pos = list(g.posparams)
+                binding = {pos[k]: a for k, a in enumerate(c.args) if k < len(pos)}
+                binding.update({k.arg: k.value for k in c.keywords if k.arg})
+                for x in _root_powers(g.node):
+                    for p_ in _param_deps(g.node, x, set(g.params)):
+                        if p_ in binding:
+                            deps |= {n_.id for n_ in ast.walk(binding[p_]) if isinstance(n_, ast.Name)} & {"renorm", "cutoff_mode"}
+        if not deps:
+            raise AnalysisError(f"{fname}: the root exponent of the renormalisation factor was not found")
+        sources[fname] = deps
+    g_, n_ = sources["_trim_and_renorm_svd_result"], sources["_trim_and_renorm_svd_result_numba"]
+    f = ctx.prog.func(DECOMP, "_trim_and_renorm_svd_result")
+    if g_ == n_:
+        r.ok("renorm power", sample={"generic": sorted(g_), "numba": sorted(n_)})
+    else:
+        r.bad(Finding(
+            "renorm-power-siblings", "_trim_and_renorm_svd_result",
+            f"the generic path takes the renormalisation power from {sorted(g_)} but the numba path from {sorted(n_)}: for an explicit "
+            "renorm=p that differs from the power of the cutoff mode (renorm=1 with 'rsum2') numpy arrays and other backends are rescaled differently",
+            where=f"{f.module.relpath}:{f.lineno}", operand="power-source"))
+    return r
